@@ -117,10 +117,16 @@ def c19_initialisers(ctx, prog):
                             ok = True
                     if fld == "fork" and src in ("fork",):
                         ok = True
+                    # ... on every path: the assignment is not nested in a branch (a field that is only filled in for some values of
+                    # another member does not "reach the C layer with the same value")
+                    guards = [a["k"] for a in F.ancestors(node) if a["k"] in ("IfStmt", "SwitchStmt", "CaseStmt", "DefaultStmt", "ConditionalOperator",
+                                                                             "ForStmt", "WhileStmt", "DoStmt", "CXXForRangeStmt")]
+                    if guards:
+                        ok = False
                     n += 1
                     ctx.ob("C19.F1", "%s: %s.%s" % (F.name, lp[0], ".".join(lp[1])), "the value assigned to this C field comes from the "
-                           "same-named C++ member or parameter", ok, {"c_field": ".".join(lp[1]), "assigned_from": expr_str(node["c"][1])[:60],
-                                                                     "source_name": src, "line": node["l"][0]}, nontrivial=True)
+                           "same-named C++ member or parameter, unconditionally", ok, {"c_field": ".".join(lp[1]), "assigned_from": expr_str(node["c"][1])[:60],
+                                                                     "source_name": src, "line": node["l"][0], "nested_in": guards}, nontrivial=True)
     ctx.floor("C19.F1", 25)
 
 
